@@ -105,6 +105,11 @@ func (w *World) extractFSM() (*FSMInfo, error) {
 				}
 				return true
 			})
+			if lit == nil && nret == 1 {
+				// `states := States{...}; return states`: a local that is defined
+				// once by the literal and never written again
+				lit = localTableLiteral(ti, fd)
+			}
 			if lit == nil || nret != 1 {
 				return nil, fmt.Errorf("cannot extract table from %s at %s: body is not a single `return States{...}` literal", fd.Name.Name, w.Pos(fd.Pos()))
 			}
@@ -168,7 +173,8 @@ func (w *World) extractFSM() (*FSMInfo, error) {
 						}
 						se.FailOnRecover = constant.BoolVal(tv.Value)
 					default:
-						return nil, fmt.Errorf("table %s state %s: unknown State field %s", tb.Func, se.KeyIdent, fname.Name)
+						// fields other than Action / Events / FailOnrecover do not
+						// take part in the transition relation
 					}
 				}
 				if _, dup := tb.States[se.Name]; dup {
@@ -266,6 +272,75 @@ func (w *World) extractFSM() (*FSMInfo, error) {
 		}
 	}
 	return info, nil
+}
+
+// localTableLiteral handles `v := States{...}` (or `var v = States{...}`)
+// followed by `return v`, with v never assigned again and never indexed for
+// writing in the function body.
+func localTableLiteral(ti *types.Info, fd *ast.FuncDecl) *ast.CompositeLit {
+	var ret *ast.Ident
+	ast.Inspect(fd.Body, func(n ast.Node) bool {
+		if r, ok := n.(*ast.ReturnStmt); ok && len(r.Results) == 1 {
+			if id, ok := ast.Unparen(r.Results[0]).(*ast.Ident); ok {
+				ret = id
+			}
+		}
+		return true
+	})
+	if ret == nil {
+		return nil
+	}
+	obj := ti.Uses[ret]
+	if obj == nil {
+		return nil
+	}
+	var lit *ast.CompositeLit
+	writes := 0
+	ast.Inspect(fd.Body, func(n ast.Node) bool {
+		switch s := n.(type) {
+		case *ast.AssignStmt:
+			for i, lhs := range s.Lhs {
+				switch l := ast.Unparen(lhs).(type) {
+				case *ast.Ident:
+					if ti.Defs[l] == obj || ti.Uses[l] == obj {
+						writes++
+						if i < len(s.Rhs) {
+							if cl, ok := ast.Unparen(s.Rhs[i]).(*ast.CompositeLit); ok {
+								lit = cl
+							}
+						}
+					}
+				case *ast.IndexExpr:
+					if id, ok := ast.Unparen(l.X).(*ast.Ident); ok && ti.Uses[id] == obj {
+						writes += 2 // element write: not a pure literal any more
+					}
+				}
+			}
+		case *ast.ValueSpec:
+			for i, name := range s.Names {
+				if ti.Defs[name] == obj {
+					writes++
+					if i < len(s.Values) {
+						if cl, ok := ast.Unparen(s.Values[i]).(*ast.CompositeLit); ok {
+							lit = cl
+						}
+					}
+				}
+			}
+		case *ast.CallExpr:
+			// delete(v, k) or passing v on would make the literal incomplete
+			for _, a := range s.Args {
+				if id, ok := ast.Unparen(a).(*ast.Ident); ok && ti.Uses[id] == obj {
+					writes += 2
+				}
+			}
+		}
+		return true
+	})
+	if writes != 1 {
+		return nil
+	}
+	return lit
 }
 
 // decodeAction turns `&A{next: &B{}}` / `A{next: ...}` into [A, B].
